@@ -3,14 +3,15 @@
 # Run quick checks against a MUTATED COPY of /repo without touching /repo, /verif/coq or /verif/evidence:
 # a scratch git worktree + a scratch copy of the Coq build dir; everything is removed afterwards.
 patch="$(realpath "$1")"; shift
+VH="$(cd "$(dirname "$0")/.." && pwd)"
 id=$$
 wt=/tmp/wt-mut-$id; cq=/tmp/coq-mut-$id; out=/tmp/out-mut-$id
 git -C /repo worktree add --detach -q "$wt" HEAD || exit 9
 ( cd "$wt" && git apply "$patch" ) || { echo "patch does not apply"; git -C /repo worktree remove --force "$wt"; exit 9; }
-mkdir -p "$out"; cp -a /verif/coq "$cq"
+mkdir -p "$out"; cp -a "$VH/coq" "$cq"
 for c in "$@"; do
   echo "=== $c (mutated copy)"
-  ( cd /verif && VERIF_REPO="$wt" VERIF_COQ_DIR="$cq" VERIF_OUT_DIR="$out" ./check "$c" 2>&1 | grep -v "^KNOWN-FINDING" | cut -c1-300 | tail -6 )
+  ( cd "$VH" && VERIF_REPO="$wt" VERIF_COQ_DIR="$cq" VERIF_OUT_DIR="$out" ./check "$c" 2>&1 | grep -v "^KNOWN-FINDING" | cut -c1-300 | tail -6 )
   for r in "$out"/replays/*.json; do [ -f "$r" ] && python3 - "$r" <<'PY'
 import json,sys
 d=json.load(open(sys.argv[1]))
